@@ -269,6 +269,23 @@ def corpus():
                       dict(type=10, num=3, flags=0, crc=("E16",) if ck == 1 else ("E32",), data=("HOP", 32, 1)),
                       dict(type=1, num=1, flags=0, crc=("E16",) if ck == 1 else ("E32",), data=("DATA", b"\x01\x02\x03"))])
         out += corruptions(rng, pb)
+    # re-framing (second mechanism behind C05_full_refuted, found by the audit of D-27): a window over the ARRAY HEAD of a block (86 01 -> 85 1a,
+    # 86 0a 02 -> 85 00 1a) makes the decoder read the following items in other positions; the old hop count / a payload byte lands in the
+    # CRC-type position as 0, the block decodes as one WITHOUT CRC, same length, re-encodes to the received bytes and passes trivially
+    wb = dict(p=dict(W_B0["p"]), cs=[dict(type=10, num=2, flags=0, crc=("E16",), data=("HOP", 32, 0)),
+                                     dict(type=1, num=1, flags=0, crc=("E16",), data=("DATA", bytes.fromhex("00000043")))])
+    ref, spans, lens, crcs = _meta(wb)
+    nb = bytearray(ref)
+    assert nb[spans[2][0]:spans[2][0] + 2] == b"\x86\x01"
+    nb[spans[2][0]:spans[2][0] + 2] = b"\x85\x1a"
+    out.append(_line(nb, "W", 2, lens, crcs))
+    wb = dict(p=dict(W_B0["p"], crc=("E32",)), cs=[dict(type=10, num=2, flags=0, crc=("E32",), data=("HOP", 32, 0)),
+                                                  dict(type=1, num=1, flags=0, crc=("E32",), data=("DATA", b"ABC"))])
+    ref, spans, lens, crcs = _meta(wb)
+    nb = bytearray(ref)
+    assert nb[spans[1][0]:spans[1][0] + 3] == b"\x86\x0a\x02"
+    nb[spans[1][0]:spans[1][0] + 3] = b"\x85\x00\x1a"
+    out.append(_line(nb, "W", 1, lens, crcs))
     # uncorrupted bundles in which the correct CRC of a block is exactly zero (1 block in 65536 / 2^32: the value coincides with the
     # all-zero placeholder of a CRC that was never calculated): they must pass like any other uncorrupted bundle
     seen = set()
@@ -379,9 +396,13 @@ def _verdict(line, out):
         return False, "not-judged:%s:block-lengths-changed" % name, None
     if cls == "W" and ocrcs != crcs:
         if valid:
-            # the literal property is violated here (C05_full_refuted): recorded as a known finding of the BPv7 wire format
-            return True, "window:crc-type-reinterpreted:ACCEPTED", \
-                "corruption accepted: a window over the CRC-type byte re-reads block %d under the other CRC algorithm and it passes crc_valid" % k
+            # the literal property is violated here (C05_full_refuted): recorded as known findings of the BPv7 wire format, two mechanisms
+            if len(ocrcs) == len(crcs) and ocrcs[k] in (1, 2):
+                return True, "window:crc-type-reinterpreted:ACCEPTED", \
+                    "corruption accepted: a window over the CRC-type byte re-reads block %d under the other CRC algorithm and it passes crc_valid" % k
+            return True, "window:crc-type-removed:ACCEPTED", \
+                ("corruption accepted: a window over the array head re-frames block %d so that another item lands in the CRC-type position; "
+                 "the decoded block has no CRC (type 0 or unknown) and passes crc_valid trivially" % k)
         return False, "not-judged:window:crc-type-changed", None
     if valid:
         return True, name + ":ACCEPTED", "corruption accepted: a %s corruption of block %d decodes to a different bundle that re-encodes to " \
@@ -395,7 +416,8 @@ def oracle(line, out, mode):
 
 def known_class(line, out):
     v = _verdict(line, out)
-    return "crc-type-reinterpretation" if v[1] == "window:crc-type-reinterpreted:ACCEPTED" else None
+    return {"window:crc-type-reinterpreted:ACCEPTED": "crc-type-reinterpretation",
+            "window:crc-type-removed:ACCEPTED": "crc-type-removed-by-reframing"}.get(v[1])
 
 
 def same(line, io, mo):
